@@ -170,3 +170,9 @@ mod tests {
         assert_eq!(q.requote(b"/abc/../efg"), None);
     }
 }
+
+#[cfg(kani)]
+mod __verif {
+    use super::*;
+    include!(concat!(env!("ACTIX_VERIF_DIR"), "/hooks/actix_router__quoter.rs"));
+}
